@@ -956,9 +956,35 @@ struct bfs_result {
   int levels_done, fixpoint, complete;
 };
 
+static char g_replay_space[128]; /* "scenario" named by the --replay file, if any */
+
+static void
+read_replay_space(void) {
+  const char *p = vx_replay_path();
+  if (!p)
+    return;
+  FILE *f = fopen(p, "r");
+  if (!f)
+    return;
+  static char doc[8192];
+  size_t n = fread(doc, 1, sizeof doc - 1, f);
+  fclose(f);
+  doc[n] = 0;
+  const char *q = strstr(doc, "\"scenario\": \"");
+  if (!q)
+    return;
+  q += 13;
+  size_t o = 0;
+  while (*q && *q != '"' && o + 1 < sizeof g_replay_space)
+    g_replay_space[o++] = *q++;
+  g_replay_space[o] = 0;
+}
+
 static void
 run_bfs(struct bfs *b, struct bfs_result *res) {
   memset(res, 0, sizeof *res);
+  if (vx_replay_path() && (strncmp(g_replay_space, b->name, strlen(b->name)) || g_replay_space[strlen(b->name)] != '-'))
+    return; /* replaying a case of another search */
   shared_reset();
   /* level 0: the initial states */
   struct hist *front = calloc((size_t)b->inits->n, sizeof *front);
@@ -986,8 +1012,14 @@ run_bfs(struct bfs *b, struct bfs_result *res) {
     b->front = front;
     b->nfront = nfront;
     snprintf(b->space, sizeof b->space, "%s-L%d", b->name, level);
-    if (vxp_replay_if_match(b->space, bfs_case, b))
-      exit(0);
+    if (vx_replay_path() && !strcmp(g_replay_space, b->space)) {
+      /* the levels below were re-enumerated to rebuild this frontier; forget what they reported */
+      struct vxp_config z = {.space = "replay-reset", .total = 0};
+      struct vxp_stats zs;
+      vxp_enumerate(&z, bfs_case, b, &zs);
+      if (vxp_replay_if_match(b->space, bfs_case, b))
+        exit(0);
+    }
     g_sh->nlog = 0;
     uint64_t total = nfront * (uint64_t)b->alpha->n;
     if (total == 0) {
@@ -1089,7 +1121,7 @@ main(int argc, char **argv) {
 #ifdef C04_FAST
   fast_stage = 1;
 #endif
-  if (fast_stage && !T) {
+  if (fast_stage && !T && !vx_replay_path()) {
     vx_ev_rule("fast stage runs in the thorough tier only");
     return vx_finish();
   }
@@ -1107,12 +1139,13 @@ main(int argc, char **argv) {
     mk_inits(&I_c, kc, 2, oc, 2, sc, 2);
   }
   shared_alloc(T ? 1ULL << 26 : 1ULL << 23, T ? 1ULL << 25 : 1ULL << 22);
+  read_replay_space();
 
   struct bfs runs[4];
   int nr = 0;
   if (!fast_stage) {
     runs[nr++] = (struct bfs){.name = "A.full-alphabet", .alpha = &A_full, .inits = &I_all, .depth = 2, .cap_opts = 5};
-    runs[nr++] = (struct bfs){.name = "B.reduced", .alpha = &A_b, .inits = &I_b, .depth = T ? 5 : 4, .cap_opts = 5};
+    runs[nr++] = (struct bfs){.name = "B.reduced", .alpha = &A_b, .inits = &I_b, .depth = T ? 6 : 4, .cap_opts = 5};
     runs[nr++] = (struct bfs){.name = "C.tiny-to-fixpoint", .alpha = &A_c, .inits = &I_c, .depth = MAXD, .cap_opts = T ? 4 : 3};
   } else {
     runs[nr++] = (struct bfs){.name = "A3.full-alphabet", .alpha = &A_full, .inits = &I_all, .depth = 3, .cap_opts = 5};
